@@ -3,6 +3,7 @@ package props
 import (
 	"context"
 	"fmt"
+	"google.golang.org/protobuf/types/known/wrapperspb"
 	"time"
 
 	"google.golang.org/grpc"
@@ -18,10 +19,10 @@ func init() { register("C11", c11) }
 
 // abandon describes how a stream is abandoned.
 type abandon struct {
-	mode string // "handler-returns" | "caller-cancels" | "caller-stops"
-	n, k int    // handler-returns: caller sends n, handler reads k<n then returns; caller-*: handler sends n, caller reads k<=n then cancels/stops
-	herr bool   // handler returns an error instead of nil
-	rstFails bool // caller-cancels: the transport write that follows the cancellation (the reset) fails
+	mode     string // "handler-returns" | "caller-cancels" | "caller-stops"
+	n, k     int    // handler-returns: caller sends n, handler reads k<n then returns; caller-*: handler sends n, caller reads k<=n then cancels/stops
+	herr     bool   // handler returns an error instead of nil
+	rstFails bool   // caller-cancels: the transport write that follows the cancellation (the reset) fails
 }
 
 func (a abandon) name() string {
@@ -75,6 +76,9 @@ func c11(tier string) []*explore.Scenario {
 	}
 	for _, replies := range []int{1, 2, 3} {
 		out = append(out, c11WriteErrAfterDelivery(replies, bound))
+	}
+	for _, what := range []string{"recv-into-non-message", "send-non-message", "send-unencodable"} {
+		out = append(out, c11FailedCallAbandoned(what, bound-1))
 	}
 	// a caller that simply stops reading (no cancel) with responses queued
 	for _, unread := range []int{1, 2, 3, 4} {
@@ -258,6 +262,73 @@ func c11WriteErrAfterDelivery(replies, bound int) *explore.Scenario {
 			d.Pipe.A.Break()
 			d.Pipe.B.Break()
 			vsched.Quiesce()
+		},
+	}
+}
+
+// c11FailedCallAbandoned: a call of the stream API fails for a reason of the
+// caller's own making - RecvMsg into something that is not a message, SendMsg of
+// something the codec cannot encode - and the caller, as the contract has it
+// after a failed call, walks away from the stream without cancelling. The
+// handler still has 5 messages to send. Later calls on the connection complete.
+func c11FailedCallAbandoned(what string, bound int) *explore.Scenario {
+	return failedCallAbandoned("C11", what, bound)
+}
+
+func failedCallAbandoned(prop, what string, bound int) *explore.Scenario {
+	fam := prop + "/failed-call-abandoned"
+	return &explore.Scenario{
+		Name: prop + "/failed-call-abandoned/" + what, Family: fam, Prop: prop, Bound: bound, Horizon: time.Hour,
+		Run: func() {
+			w := env.NewWorld()
+			d := env.NewDirect(w, env.DirectOpts{Pipe: env.PipeOpts{Cap: 64}})
+			vsched.Settle()
+			vsched.Explore(true)
+			r := w.Rec("ab", "Bidi")
+			w.Handlers["ab"] = env.HBurst(5)
+			var opErr error
+			vsched.GoNamed("caller-ab", func() {
+				cs := w.Open(d.CC, context.Background(), r)
+				if cs != nil {
+					env.CSend(r, cs, "go")
+					switch what {
+					case "recv-into-non-message":
+						s := "not a message"
+						opErr = cs.RecvMsg(&s)
+					case "send-non-message":
+						opErr = cs.SendMsg("not a message")
+					case "send-unencodable":
+						opErr = cs.SendMsg(&wrapperspb.StringValue{Value: "\xff\xfe invalid utf-8"})
+					}
+				}
+				r.CDone = true // walks away
+			})
+			vsched.Quiesce()
+			if !r.CDone {
+				vsched.Fail(fam+"|own-caller-hang", "the failing call (%s) never returned; threads: %s", what, threadList())
+			} else if opErr == nil {
+				vsched.Fail(fam+"|harness", "%s was expected to fail", what)
+			}
+			p1 := w.Rec("p1", "Unary")
+			vsched.GoNamed("probe-p1", func() { w.CallUnary(d.CC, context.Background(), p1, "x") })
+			vsched.Quiesce()
+			p2 := w.Rec("p2", "Unary")
+			vsched.GoNamed("probe-p2", func() {
+				ctx, cancel := context.WithTimeout(context.Background(), time.Second)
+				defer cancel()
+				w.CallUnary(d.CC, ctx, p2, "x")
+			})
+			vsched.QuiesceTime()
+			vsched.Obs("%s: err=%v; p1 done=%v p2 done=%v", what, opErr, p1.CDone, p2.CDone)
+			if !p1.CDone {
+				vsched.Fail(fam+"|rpc-hang", "after a stream call failed (%s) and the caller walked away with 5 handler messages outstanding, a later unary call never returned; threads: %s", what, threadList())
+			} else {
+				checkUnary(p1, "x", fam)
+			}
+			if !p2.CDone {
+				vsched.Fail(fam+"|deadline-rpc-hang", "after %s: a later unary call with a 1s deadline never returned", what)
+			}
+			finishDirect(d, w, false)
 		},
 	}
 }
